@@ -716,7 +716,27 @@ def normalise(tree):
     return tree
 
 
+def _strip_hints(tree):
+    """N38: type hints are comments to the analyser: argument and return annotations dropped, `x: T = e` is `x = e`,
+    a bare `x: T` disappears"""
+    class H(ast.NodeTransformer):
+        def visit_FunctionDef(s, n):
+            s.generic_visit(n)
+            n.returns = None
+            for a in n.args.args + n.args.kwonlyargs + n.args.posonlyargs + [x for x in (n.args.vararg, n.args.kwarg) if x is not None]:
+                a.annotation = None
+            return n
+
+        def visit_AnnAssign(s, n):
+            s.generic_visit(n)
+            if n.value is None:
+                return ast.copy_location(ast.Pass(), n)
+            return ast.copy_location(ast.Assign(targets=[n.target], value=n.value), n)
+    H().visit(tree)
+
+
 def _normalise_once(tree):
+    _strip_hints(tree)
     msigs = _module_sigs(tree)
     for qual, fn in outer_functions(tree):
         counts = {}
